@@ -84,10 +84,10 @@ def streams(tier):
     return [
         Stream(name="births", imports="From Viv Require Import Common Population.", check="check_pop",
                gen=lambda rng: popdrv.gen_program(rng, "create"), run=popdrv.run_program, corpus=_corpus,
-               n_quick=230, n_thorough=2400, finding_of=popdrv.finding_of,
+               n_quick=200, n_thorough=2000, finding_of=popdrv.finding_of,
                doc="creation histories on real contexts: labels, old rows, initializer log, full-table comparison"),
         Stream(name="edge", imports="From Viv Require Import Common Population.", check="check_pop",
-               gen=popdrv.gen_edge, run=popdrv.run_edge, n_quick=40, n_thorough=300,
+               gen=popdrv.gen_edge, run=popdrv.run_edge, n_quick=40, n_thorough=300, finding_of=popdrv.finding_of,
                doc="python oracle only: creations from post_setup / simulation_end listeners (outcome class recorded) and "
                    "nested inside an initializer - labels fresh and consecutive, no row lost, existing cells keep their values"),
     ]
